@@ -202,6 +202,7 @@ func (r *ClientRig) GoClose() {
 func (r *ClientRig) Settle() {
 	r.Ctrl.Settle()
 	r.Collect()
+	checkReuse(r.C, "client", r.End)
 }
 
 // Collect moves records the client sent into the rig's list.
